@@ -206,7 +206,7 @@ let do_op (op : string) (sts : d list) : d list =
      | 'B' ->
        (* message_buffer_capacity: only as the first op *)
        each (fun st -> if st == d0 || st = d0 then { st with m = init_cap (nat_of_int n) } else failwith "B must come first")
-     | 'P' | 'q' | 'g' | 'I' -> dedup all      (* reply padding / client reader paused / resumed / WebSocket pings enabled: invisible to the model *)
+     | 'P' | 'q' | 'g' | 'I' | 'T' -> dedup all      (* reply padding / client reader paused / resumed / WebSocket pings enabled / keep-alive timeout: invisible to the model *)
      | 's' ->
        each (fun st ->
            let late = st.stopped_logged in
